@@ -75,6 +75,9 @@ reg = {
                   # now, the ASSUMED contract of alloc_lowest
                   "helpers": ["xxh3_checksum", "div_ceil_u32", "pow2_u32", "vec_reverse", "min_u8", "max_u32", "min_u32", "alloc_lowest"]},
         "types_sep": {"overlay": "units/types_sep.ovl", "canaries": ["canary_types_sep"], "helpers": ["common_prefix_len"]},
+        # glue code verified against assumed, uninterpreted callee contracts (tree_ok)
+        "dbverify": {"overlay": "units/dbverify.ovl", "canaries": ["canary_dbverify"],
+                     "helpers": ["get_data_root", "get_system_root", "new", "clone", "untracked", "verify_checksums"]},
         # the two storage entry points are modelled by a ghost trace (assumed contracts, trusted base T9)
         "commit": {"overlay": "units/commit.ovl", "canaries": ["canary_commit"], "helpers": ["flush", "write_header"]},
     },
@@ -141,15 +144,18 @@ P["C01"] = {
     "level": "proof",
     "kani": [K["C01-K1"], K["C01-K2"], K["C01-K3"], K["C01-K4"], K["C01-K4b"], K["C01-K6a"], K["C01-K6b"]],
     "verus": [{"unit": "alloc", "functions": ["DatabaseLayout::recalculate", "DatabaseLayout::len", "RegionLayout::len", "lemma_round_up", "lemma_div_exact", "lemma_mul_le"]},
-              {"unit": "commit", "functions": ["TransactionalMemory::commit_core", "DatabaseHeader::*", "lemma_xor1"]}],
+              {"unit": "commit", "functions": ["TransactionalMemory::commit_core", "DatabaseHeader::*", "lemma_xor1"]},
+              {"unit": "dbverify", "functions": ["Database::verify_checksums"]}],
     "assumptions": ["T9: TransactionalMemory::write_header hands the 320-byte image of exactly the header it is given to the storage layer, and PagedCachedFile::flush makes everything handed over before it durable; each appends its event to the ghost trace on success and its event or nothing on failure (assumed contracts of the commit unit; the page cache itself is not verified)"],
     "explanation": "Kernel of the crash argument of docs/design.md: (K5) the REAL statements of TransactionalMemory::commit between staging the commit and the final sync (fragment extraction) produce exactly W(h1) [F if two_phase] W(h2) F, where h1 is the old header with the new commit staged in the secondary slot and the OLD god byte, and h2 differs from h1 only in the primary bit and the 2PC bit; on a failing write or sync only a prefix of that sequence reaches the storage (the flip never precedes the sync it depends on), and the header handed back for publication is h2; (K1) a written commit slot decodes to itself and verifies; (K2) the commit point is ONE byte: flipping primary / 2PC / recovery flags changes only byte 9; (K3) slot selection never returns a slot that failed verification, keeps the primary under 2PC, otherwise the newer valid slot wins; (K4) with recovery_required the layout is rebuilt from the file length whatever the stored counts were (page size 4096; the unbounded counterpart is Verus DatabaseLayout::recalculate: the rebuilt layout never extends past the file); (K6) transaction ids strictly increase and reserving a repair id never lowers the next id.",
     "not_decided": "2^W write subsets, page data and checksums reaching the cache before the first header write (finalize_dirty_checksums, whole-program), what the page cache does with writes and flushes (assumed, T9), publication of the new header into the shared state, non_durable_commit, histories, recovery re-crash",
 }
 P["C12"] = {
     "level": "proof",
+    "verus": [{"unit": "dbverify", "functions": ["Database::verify_primary_checksums", "Database::verify_checksums"]}],
+    "assumptions": ["dbverify unit: TableTree::verify_checksums returns Ok(b) with b == tree_ok(root of the tree it was built from) (uninterpreted predicate; the page-level walk itself is not verified here); TransactionalMemory::get_data_root / get_system_root return the roots of the primary slot"],
     "kani": [K["C12-K1K2"], K["C12-K2b"], alias("C01-K3", "C12-K3"), K["C12-K4"]],
-    "explanation": "Kernel: the corrupted flag of a commit slot is exactly 'stored checksum != computed' for all 2^1016 slot images; a slot that failed verification is written back verbatim (never re-serialised as valid) until a new commit overwrites it; selection never returns a corrupt slot; a version byte other than 3 is never parsed.",
+    "explanation": "Kernel: the corrupted flag of a commit slot is exactly 'stored checksum != computed' for all 2^1016 slot images; a slot that failed verification is written back verbatim (never re-serialised as valid) until a new commit overwrites it; selection never returns a corrupt slot; a version byte other than 3 is never parsed; the REAL glue Database::verify_primary_checksums / verify_checksums answers Ok(true) only if BOTH the data tree and the system tree of the primary slot verified (against assumed callee contracts).",
     "not_decided": "every byte position of every image; the page-level Merkle walk (verify_checksum_helper); XXH3 being XXH3",
 }
 P["C10"] = {
